@@ -349,7 +349,16 @@ def solve_one(world, ob, timeout_ms, prober=None):
     if r == z3.unsat:
         rec["backend"] = "z3-5.1(api, e-matching)"
     else:
-        r = s.check()
+        # pass 2: default configuration, first with a short budget (z3's model-based instantiation finds counter-models
+        # under a 10 s budget that it misses under a longer one - observed), then with the full budget
+        s2 = z3.Solver()
+        s2.set("timeout", min(timeout_ms, 10000))
+        s2.add(s.assertions())
+        r = s2.check()
+        if r == z3.sat:
+            s = s2
+        elif r == z3.unknown and timeout_ms > 10000:
+            r = s.check()
     if r == z3.unsat:
         rec["verdict"] = "proved"
     elif r == z3.sat:
